@@ -133,6 +133,10 @@ type Sim struct {
 	locks   map[any]*lockState
 	condq   map[any][]*Task
 	step    int
+	// spin detection: the step at which simulated time last advanced, and yield sites since
+	instantAt   time.Duration
+	instantStep int
+	spinSites   map[string]int
 	start   time.Time
 	log     []string
 	sigHash uint64
@@ -475,7 +479,23 @@ func (s *Sim) loop() {
 		if s.isMainDone() {
 			return
 		}
+		if now := time.Since(s.start); now != s.instantAt {
+			s.instantAt, s.instantStep = now, s.step
+			s.spinSites = map[string]int{}
+		}
 		if s.step >= s.cfg.MaxSteps {
+			// Half of all the steps at one simulated instant: the code under test is spinning (a loop that
+			// keeps finding something ready without time passing), which no amount of extra steps would end.
+			if spin := s.step - s.instantStep; spin >= s.cfg.MaxSteps/2 {
+				site, n := "", 0
+				for k, c := range s.spinSites {
+					if c > n || (c == n && k < site) {
+						site, n = k, c
+					}
+				}
+				s.viol = &Violation{Kind: "livelock/" + site, Detail: fmt.Sprintf("%d consecutive scheduling steps at simulated instant %v without time advancing (step cap %d); most frequent yield point %s (%d times)", spin, s.instantAt, s.cfg.MaxSteps, site, n)}
+				return
+			}
 			s.viol = &Violation{Kind: "harness-maxsteps", Detail: fmt.Sprintf("step cap %d reached", s.cfg.MaxSteps)}
 			return
 		}
@@ -570,6 +590,9 @@ func (s *Sim) loop() {
 			s.sigHash = mix(s.sigHash, hashStr(site)^uint64(t.Seq)*0x9e3779b97f4a7c15^uint64(len(en)))
 		}
 		s.logf("run %s %s %s [%d/%d]", t.Name, kindName(kind), site, idx, len(en))
+		if s.spinSites != nil && s.step-s.instantStep > s.cfg.MaxSteps/4 {
+			s.spinSites[site]++
+		}
 		switch kind {
 		case rqLock:
 			s.lockOf(key).writer = t
